@@ -32,7 +32,7 @@ def run(ck):
         return ck.finish(**FINISH)
     quick = ck.tier == "quick"
     # correspondence of the model (panic behaviour included)
-    stats, mism = idecorr.run_streams(["grammar", "sem", "inc", "corpus"], 120 if quick else 1500, seed=ck.seed, corpus_limit=12 if quick else None)
+    stats, mism = idecorr.run_streams(["grammar", "sem", "inc", "odd", "corpus"], 120 if quick else 1500, seed=ck.seed, corpus_limit=12 if quick else None)
     for s, st in stats.items():
         ck.count("model-" + s, st["cases"], set(range(st["agree"])), queries=st["queries"], model_disagreements=st["mismatch"])
     for m in mism[:3]:
